@@ -127,6 +127,54 @@ def exact_arithmetic(chk, name, s):
               sample="provenance of the operands of every comparison on the path")
 
 
+def _collect_xc(s, base, g, got, xc, enum_names=None):
+    """one concrete model of the path for the CPython cross-check (integer-valued percentage so that the real-arithmetic reading is exact)"""
+    slv = z3.Solver()
+    slv.set("timeout", 5000)
+    slv.add(*s.pc)
+    tp = g.get("tp")
+    if tp is not None:
+        slv.add(z3.IsInt(tp), tp >= 0, tp <= 100)
+    for k_ in ("total", "s", "f", "started", "minimum", "ms", "tc"):
+        if k_ in g and not z3.is_bool(g[k_]):
+            slv.add(g[k_] >= 0, g[k_] <= 60)
+    if slv.check() != z3.sat:
+        return
+    mdl = slv.model()
+
+    def val(t):
+        return str(mdl.eval(t, model_completion=True))
+    case = dict(base)
+    for k_, t in g.items():
+        if z3.is_bool(t):
+            case[k_] = z3.is_true(mdl.eval(t, model_completion=True))
+        else:
+            case[k_] = val(t)
+    for k_none, k_val in (("tc_none", "tc"), ("tp_none", "tp"), ("ms_none", "ms")):
+        if case.get(k_none):
+            case[k_val] = None
+    gv = mdl.eval(got, model_completion=True)
+    case["expected"] = z3.is_true(gv) if z3.is_bool(got) else (enum_names or {}).get(str(gv), str(gv))
+    xc.append(case)
+
+
+def _run_xc(chk, xc):
+    if not xc:
+        return
+    from pyvc.check import native
+    try:
+        res = native("counters_crosscheck.py", xc, timeout=120)
+    except Exception as e:  # noqa: BLE001
+        chk.fault(f"counters cross-check harness failed: {e!r}")
+        return
+    for r in res:
+        if r.get("match"):
+            chk.validated += 1
+        else:
+            chk.fault(f"engine/CPython mismatch on the completion policy: native={r.get('native')} predicted={r.get('predicted')} case={r.get('case')}")
+            break
+
+
 def counters_contract(chk, prefix="C09"):
     eng = Engine(hooks=ExecHooks())
     P = eng.program
@@ -134,6 +182,7 @@ def counters_contract(chk, prefix="C09"):
     specs = {"should_continue": lambda g: spec_continue(g["total"], g["tc_none"], g["tc"], g["tp_none"], g["tp"], g["f"]),
              "is_complete": lambda g: z3.Or(g["s"] + g["f"] == g["total"], g["s"] >= g["minimum"]),
              "should_complete": lambda g: spec_stop(g["total"], g["minimum"], g["tc_none"], g["tc"], g["tp_none"], g["tp"], g["s"], g["f"])}
+    xc = []
     for m, spec in specs.items():
         st = St()
         c, g = counters_obj(eng, st)
@@ -146,8 +195,10 @@ def counters_contract(chk, prefix="C09"):
                 continue
             exact_arithmetic(chk, f"{prefix}.counters.exact_arithmetic.{m}", s)
             got = z3.BoolVal(v) if isinstance(v, bool) else zbool(v)
+            _collect_xc(s, {"what": "counters", "method": m}, g, got, xc)
             chk.prove(f"{prefix}.counters.{m}", s.pc, got == spec(g), desc=f"ExecutionCounters.{m}() equals the policy's spec function for every configuration and count (linear real arithmetic)",
                       sample=f"{m}: returned value == spec(total, min_successful, tolerances, success, failure)")
+    _run_xc(chk, xc)
     for m, delta in (("complete_task", ("success_count", "failure_count")), ("fail_task", ("failure_count", "success_count"))):
         st = St()
         c, g = counters_obj(eng, st)
@@ -202,6 +253,17 @@ def real_stop_decision(chk, eng, st_cfg, g, total):
             chk.fault("ConcurrentExecutor.__init__ raised")
             continue
         counters = s.get(self_)["counters"]
+        cf = s.get(counters)
+        tc_c, tp_c = cf["tolerated_failure_count"], cf["tolerated_failure_percentage"]
+        explicit_kept = z3.And(
+            z3.Implies(z3.Not(tc_none), z3.And(z3.Not(is_none(tc_c)), zint(strip_opt(tc_c)) == z3.Int("cfg.tol_count")) if strip_opt(tc_c) is not None else F),
+            z3.Implies(z3.Not(tp_none), z3.And(z3.Not(is_none(tp_c)), ops.zreal(strip_opt(tp_c)) == z3.Real("cfg.tol_pct")) if strip_opt(tp_c) is not None else F),
+            z3.Implies(z3.And(ms_none, tc_none), is_none(tc_c)), z3.Implies(tp_none, is_none(tp_c)),
+            zint(cf["total_tasks"]) == n)
+        chk.prove("C09.exec.init_policy_mapping", s.pc, explicit_kept,
+                  desc="ConcurrentExecutor.__init__ hands the policy to the counters unchanged: an explicit tolerated_failure_count / tolerated_failure_percentage - including 0 - is the counters' tolerance, "
+                       "absent tolerances stay absent unless a minimum-success policy supplies the default, total = number of branches",
+                  sample="__init__: counters.tolerated_failure_* == config.tolerated_failure_* when given")
         s.setfield(counters, "success_count", Sym("int", g["s"]))
         s.setfield(counters, "failure_count", Sym("int", g["f"]))
         for k2, v2, s2 in eng.call_func(P.cls("concurrency.models.ExecutionCounters").find_method("should_complete"), [counters], {}, s):
@@ -225,8 +287,13 @@ def reason_consistency(chk, prefix="C09"):
     rcls = P.cls("concurrency.models.CompletionReason")
     consts = enum_sort(rcls)[1]
     total = g["s"] + g["f"] + g["started"]
+    xc = []
     for k_, v_, s_ in res:
         exact_arithmetic(chk, f"{prefix}.classifier.exact_arithmetic", s_)
+        if k_ == "val" and is_sym(v_, "enum"):
+            names = {str(c_): n_ for n_, c_ in enum_sort(P.cls("concurrency.models.CompletionReason"))[1].items()}
+            _collect_xc(s_, {"what": "classifier"}, {kk: vv for kk, vv in g.items()}, v_.t, xc, enum_names=names)
+    _run_xc(chk, xc)
     stops = real_stop_decision(chk, eng, res[0][2] if res else st, g, total)
     for (spc, stop) in stops:
       pre = list(spc) + [stop, z3.Not(g["cfg_none"])]
@@ -685,6 +752,10 @@ def execute_structure(chk, prefix="C09"):
                 continue
             mw = pools[0].max_workers if pools else None
             exp = z3.If(z3.Or(is_none(mc), zint(strip_opt(mc)) == 0), n, zint(strip_opt(mc)))
+            if isinstance(mw, Opt):
+                # max_workers=None makes ThreadPoolExecutor pick min(32, cpu_count + 4) (S): an unknown machine-dependent size, not "unbounded"
+                default_size = z3.Int("threadpool_default_max_workers")
+                mw = Sym("int", z3.If(mw.none, default_size, zint(mw.val)))
             chk.prove(f"{prefix}.exec.max_workers_arg", s.pc, z3.And(z3.BoolVal(len(pools) == 1), zint(mw) == exp, zint(mw) >= 1) if mw is not None else F,
                       desc="the thread pool is created once with max_workers = max_concurrency or the number of branches (>= 1): never more branches at once than the limit (S: ThreadPoolExecutor)")
             subs = [e for e in s.trace if e.kind == "submit"]
@@ -996,7 +1067,10 @@ def handlers_dispatch(chk, prefix="C16"):
                 if e_ok:
                     el = s.get(exes["elem"])
                     idx = el["index"]
-                    goal = z3.And(goal, exes["len"] == n, z3.Implies(n > 0, z3.And(zint(idx) >= 0, zint(idx) < n)))
+                    # index = POSITION: the index expression is the iteration's own position variable (range(len(items)) / enumerate), not a value
+                    # looked up from the item (items.index(item) gives equal items the same index, hence the same branch id)
+                    positional = is_sym(idx, "int") and idx.t.decl().name().startswith(("range_index", "enum_index"))
+                    goal = z3.And(goal, exes["len"] == n, z3.Implies(n > 0, z3.And(zint(idx) >= 0, zint(idx) < n)), z3.BoolVal(bool(positional)))
             chk.prove(f"{prefix}.exec.{fn}", s.pc, goal,
                       desc=f"{fn}: reads the batch operation's own record; SUCCEEDED => replay(), otherwise execute(), with the same state and context; one executable per input with index = position (0..n-1)",
                       sample=f"{fn} over n symbolic inputs")
